@@ -1,4 +1,4 @@
-import JunoModel.C05.ProofsP6
+import JunoModel.C05.ProofsSvc
 /-!
 C05 — property theorems (statements only; proofs are in `Proofs*.lean`).
 
@@ -497,6 +497,131 @@ theorem floor_raised_after_sweep_would_serve_pruned_state :
   intro h
   have := (h 0 (by decide)).1
   revert this
+  decide
+
+/-! ## The pruner SERVICE: both event handlers and the counter (round 6)
+
+`Pruner.Run` dispatches L1-head events to `onNewL1Head` (`POp.l1event` above) and L2-head events to
+`onNewBlock`; both end in `pruneUpto` (`pruneUptoEv`: raise the shared floor, then the sweep).
+`l2Decide` transcribes `onNewBlock` up to that call: the guards (no L1 head on disk, `l1 ≤ num`,
+`num < R`, the event is STALE: `num > height`) and the in-memory counter `pendingL2Heads` with its
+threshold `l2HeadsPerPrune`. `Svc` = process with the counter, `SEv` = call | L1 event | L2 event,
+`sexec` / `srun` as before. -/
+
+/-- Both handlers share one tail: the L1 handler is its own decision (`l1Decide`) followed by
+`pruneUpto` of the target — the function the L2 handler calls too. -/
+theorem l1_handler_is_decision_then_pruneUpto (early : Bool) (W : Nat) (fx : Fixes) (pn : PNode)
+    (l1 R : Nat) (ft : Fault) :
+    pexec early W fx pn (.l1event l1 R) ft =
+      match (l1Decide (getHeight pn.node.disk) l1 R 0).1 with
+      | none => (pn, .ok)
+      | some e => pruneUptoEv early W fx pn e ft :=
+  pexec_l1event_eq early W fx pn l1 R ft
+
+/-- `onNewBlock` never prunes the head: when an L2-head event prunes, the target is `num − R`, it is
+at most the chain height ON DISK (the sweep deletes strictly below the target), the event's block is
+on the chain (`num ≤ height`) and below the L1 head, the threshold has been reached and the counter
+is reset. -/
+theorem l2_event_never_prunes_head (l1 height : Option Nat) (num R per pending e p' : Nat)
+    (h : l2Decide l1 height num R per pending = (some e, p')) :
+    p' = 0 ∧ e = num - R ∧ R ≤ num ∧ per ≤ pending + 1 ∧
+      (∃ hh, height = some hh ∧ num ≤ hh ∧ e ≤ hh) ∧ (∃ l, l1 = some l ∧ num < l) :=
+  l2Decide_some h
+
+/-- A stale L2-head event — its block is above the chain height, i.e. it has been reverted since
+the event was published — is dropped: no prune, counter untouched; whatever L1 head, `R`, threshold. -/
+theorem stale_l2_event_is_dropped (l1 : Option Nat) (h num R per pending : Nat) (hs : h < num) :
+    l2Decide l1 (some h) num R per pending = (none, pending) :=
+  l2Decide_stale l1 h num R per pending hs
+
+/-- The counter `pendingL2Heads` stays below the threshold along EVERY history of calls, L1 events
+and L2 events and every fault schedule (so a prune is triggered exactly by the `per`-th counted
+event; restarts and L1-triggered prunes reset it). -/
+theorem pruner_counter_below_threshold (early : Bool) (W : Nat) (fx : Fixes) (per : Nat)
+    (hs : List (SEv × Fault)) (hper : ∀ x ∈ hs, ∀ num R p, x.1 = .l2 num R p → p = per) :
+    (srun early W fx Svc.init hs).pending < max per 1 :=
+  srun_pending_lt early W fx per hs Svc.init hper (by show 0 < max per 1; omega)
+
+/-- `memory_tracks_disk` for the retention floor under `pruneUpto` from EITHER handler: any target
+that does not exceed the chain height, any fault (the sweep completed, any of its batch commits
+failed, the process died after any batch): the invariant (good node, floor seeded and at least
+`oldest retained − 1`) survives, hence only reconstructible states are served. -/
+theorem floor_tracks_disk_under_pruneUpto (W : Nat) (c : List Block) (F : Nat) (pn : PNode)
+    (hi : PInv W c F pn) (hw : pn.wired = true) (e : Nat)
+    (he : ∀ h, getHeight pn.node.disk = some h → e ≤ h) (ft : Fault) :
+    FloorSafe (pruneUptoEv true W Fixes.all pn e ft).1 ∧
+      ∃ F', GoodP W c F' (pruneUptoEv true W Fixes.all pn e ft).1.node := by
+  obtain ⟨F', h⟩ := pruneUptoEv_inv hi hw e he ft
+  exact ⟨floorSafe_of_inv h, F', h.good⟩
+
+/-- Update order of the shared floor, stated directly: within a process (no crash) `pruneUpto(e)`
+leaves the floor at least `e − 1` and never below what it was — for the completed sweep AND for a
+sweep whose k-th batch commit failed, for every k (so whatever the committed batches removed — they
+only delete below `e` — lies below the floor the readers see). -/
+theorem floor_raised_before_any_batch (W : Nat) (fx : Fixes) (pn : PNode) (e : Nat) (ft : Fault) (f : Nat)
+    (hf : pn.floor = some f) (hc : ft.isCrash = false) :
+    ∃ g, (pruneUptoEv true W fx pn e ft).1.floor = some g ∧ f ≤ g ∧ e ≤ g + 1 :=
+  pruneUptoEv_floor_mono W fx pn e ft f hf hc
+
+/-- `retention_floor_tracks_disk` for the whole service: every history of calls, L1-head events AND
+L2-head events (stale ones, below-threshold ones, pruning ones) of a process wired as `node.New`
+does, from the empty node, every fault schedule: the node stays good and serves only states its
+disk can reconstruct. -/
+theorem retention_floor_tracks_disk_service (W : Nat) (hW : 0 < W) (hs : List (SEv × Fault))
+    (hv : ValidSHist W Fixes.all Svc.init [] hs) :
+    FloorSafe (srun true W Fixes.all Svc.init hs).pn ∧
+      ∃ c F, GoodP W c F (srun true W Fixes.all Svc.init hs).pn.node := by
+  obtain ⟨c, F, hi⟩ := sinv_run hW hs Svc.init [] [] 0 (pinv_init W hW) (fun _ h => by cases h) hv
+  exact ⟨floorSafe_of_inv hi, c, F, hi.good⟩
+
+/-- Histories without L2 events are exactly the histories of `retention_floor_tracks_disk`. -/
+theorem service_without_l2_events (early : Bool) (W : Nat) (fx : Fixes) (hs : List (POp × Fault)) :
+    (srun early W fx Svc.init (hs.map (fun x => ((match x.1 with
+      | .call op => SEv.call op
+      | .l1event l1 R => SEv.l1 l1 R), x.2)))).pn = prun early W fx PNode.init hs :=
+  srun_eq_prun early W fx hs Svc.init
+
+/-- Five blocks, L1 head 4, two reverts (height 2): the event of block 3 is STALE. -/
+def hStale : List (SEv × Fault) :=
+  [(.call (.store b0), .none), (.call (.store b1), .none), (.call (.store b2), .none),
+   (.call (.store b3), .none), (.call (.store b4), .none), (.call (.l1head 4), .none),
+   (.call .revert, .none), (.call .revert, .none)]
+
+/-- … then the service at work (threshold 2): the stale event (dropped), a counted event, the event
+that prunes to the head itself (target 2 = height) with its SECOND batch failing, a counted event,
+an L1 event whose process dies after the first batch, and a prune with threshold 1. -/
+def hSvc : List (SEv × Fault) := hStale ++
+  [(.l2 3 0 2, .none), (.l2 1 0 2, .none), (.l2 2 0 2, .failAt 1), (.l2 2 1 2, .none),
+   (.l1 1 0, .crashAfter 0), (.l2 2 0 1, .none)]
+
+-- non-vacuity of `retention_floor_tracks_disk_service`
+example : ValidSHist 4 .all Svc.init [] hSvc := by
+  simp only [hSvc, hStale, List.cons_append, List.nil_append, ValidSHist, and_true]
+  refine ⟨?_, ?_, ?_, ?_, ?_, trivial, Or.inl (by decide), Or.inl (by decide), rfl, rfl, rfl, rfl, rfl, rfl⟩ <;>
+    (intro _; refine ⟨⟨?_, ?_, ?_⟩, ?_⟩ <;> first | decide | (unfold FreshBelow; decide))
+
+example : let s := srun true 4 .all Svc.init hSvc
+    getHeight s.pn.node.disk = some 2 ∧ floorOf s.pn.node.disk = 2 ∧ s.pn.floor = some 1 ∧ s.pending = 0 ∧
+      stateServed s.pn.floor s.pn.node.disk 0 = false ∧ stateServed s.pn.floor s.pn.node.disk 1 = true := by
+  decide
+
+/-- The stale-event guard at work, and what it excludes: after `hStale` (height 2, L1 head 4) the
+event of the reverted block 3 is dropped by the code; WITHOUT the guard `onNewBlock` would call
+`pruneUpto(3)`, which deletes the records of the head block 2 itself (state update and commitments
+gone while the chain height still says 2) and raises the floor to the head. -/
+theorem stale_l2_event_dropped_by_guard :
+    let s := srun true 4 .all Svc.init hStale
+    getHeight s.pn.node.disk = some 2 ∧ getL1 s.pn.node.disk = some 4 ∧
+      l2Decide (getL1 s.pn.node.disk) (getHeight s.pn.node.disk) 3 0 1 0 = (none, 0) ∧
+      (sexec true 4 .all s (.l2 3 0 1) .none).1.pn.node.disk (.su 2) = s.pn.node.disk (.su 2) := by
+  decide
+
+theorem stale_l2_event_without_guard_would_prune_head :
+    let s := srun true 4 .all Svc.init hStale
+    l2DecideNoStaleGuard (getL1 s.pn.node.disk) (getHeight s.pn.node.disk) 3 0 1 0 = (some 3, 0) ∧
+      (let r := pruneUptoEv true 4 .all s.pn 3 .none
+       getHeight r.1.node.disk = some 2 ∧ (r.1.node.disk (.su 2)).isSome = false ∧
+         (r.1.node.disk (.commit 2)).isSome = false ∧ r.1.floor = some 2) := by
   decide
 
 /-! ## Regression witnesses for defects that are fixed in /repo (code variants that no longer exist)
